@@ -502,7 +502,9 @@ class BGP(protocol.Protocol):
         :return:
         """
 
-        self.msg_recv_stat['Opens'] += 1
+        if len(msg) >= 10:
+            # a shorter body is a message header error, not an OPEN
+            self.msg_recv_stat['Opens'] += 1
         open_msg = Open()
         parse_result = open_msg.parse(msg)
         if self.fsm.bgp_peering.peer_asn != open_msg.asn:
